@@ -19,170 +19,21 @@ package bifs
 //@ spec func isI(r *mlrval.Mlrval, v int64) bool { return mlrval.IsIntVal(r) && mlrval.VInt(r) == v }
 //@ spec func isF(r *mlrval.Mlrval, v float64) bool { return mlrval.IsFloatVal(r) && sameFloat(mlrval.VFloat(r), v) }
 """
-def section08():
-    # Generates the C08 section of /repo/pkg/bifs/verif_contracts.go: helper classes, type-error
-    # functions (found by scanning the sources for single-statement wrappers), and table rules.
-    import re, glob
-    out=[]
-    def w(s=""): out.append(s)
-    src = {f: open(f).read() for f in sorted(glob.glob("/repo/pkg/bifs/*.go")) if not f.endswith("_test.go") and "verif_" not in f}
-    w("//@ properties C08")
-    w("// ---- classes of disposition-matrix cells (binary) ----")
-    K = "mlrval.VKind"
-    w(f"//@ classdef ret1 = result == input1")
-    w(f"//@ classdef ret2 = result == input2")
-    w(f"//@ classdef absent2 = result != nil && {K}(result) == mlrval.MT_ABSENT")
-    w(f"//@ classdef void2 = result != nil && {K}(result) == mlrval.MT_VOID")
-    w(f"//@ classdef null2 = result != nil && {K}(result) == mlrval.MT_NULL")
-    w(f"//@ classdef error2 = result != nil && {K}(result) == mlrval.MT_ERROR")
-    w(f"//@ classdef int0 = isI(result, 0)")
-    w(f"//@ classdef float0 = isF(result, 0.0)")
-    w(f"//@ classdef num2 = mlrval.IsIntVal(result) || mlrval.IsFloatVal(result) || (result != nil && {K}(result) == mlrval.MT_ERROR)")
-    w(f"//@ classdef pick2 = result == input1 || result == input2")
-    w(f"//@ classdef neg2 = imp(mlrval.IsIntVal(input2), isI(result, -old(iv(input2)))) && imp(mlrval.IsFloatVal(input2), isF(result, -old(fv(input2))))")
-    w("// ---- classes of disposition-vector cells (unary) ----")
-    w(f"//@ classdef ret1u = result == input1")
-    w(f"//@ classdef absent1 = result != nil && {K}(result) == mlrval.MT_ABSENT")
-    w(f"//@ classdef void1 = result != nil && {K}(result) == mlrval.MT_VOID")
-    w(f"//@ classdef null1 = result != nil && {K}(result) == mlrval.MT_NULL")
-    w(f"//@ classdef error1 = result != nil && {K}(result) == mlrval.MT_ERROR")
-    w(f"//@ classdef zero1 = isI(result, 0)")
-    w()
-    def fn(name, req, classes, mod="nothing", enc="bv"):
-        w(f"//@ func {name}"); w(f"//@ encoding {enc}")
-        if req: w(f"//@ requires {req}")
-        w(f"//@ modifies {mod}")
-        w(f"//@ class {' '.join(classes)}")
-        w()
-    for n,c in (("_absn",["absent2"]),("_null",["null2"]),("_void",["void2"]),("_1___",["ret1"]),("_2___",["ret2"]),("_i0__",["int0","num2"]),("_f0__",["float0","num2"])):
-        fn(n, "input1 != nil && input2 != nil", c)
-    fn("_n2__", "mlrval.WF(input2)", ["neg2"], mod="F:mlrval.Mlrval.printrep F:mlrval.Mlrval.printrepValid")
-    for n,c in (("_absn1",["absent1"]),("_null1",["null1"]),("_void1",["void1"]),("_1u___",["ret1u"]),("_zero1",["zero1"])):
-        fn(n, "input1 != nil", c)
-    # type-error wrappers
-    PRV = "F:mlrval.Mlrval.printrep F:mlrval.Mlrval.printrepValid"
-    for f,s in src.items():
-        for m in re.finditer(r"func (\w+)\(input1, input2 \*mlrval\.Mlrval\) \*mlrval\.Mlrval \{\n\treturn mlrval\.FromTypeErrorBinary\(", s):
-            fn(m.group(1), "input1 != nil && input2 != nil", ["error2"], mod=PRV)
-        for m in re.finditer(r"func (\w+)\(input1 \*mlrval\.Mlrval\) \*mlrval\.Mlrval \{\n\treturn mlrval\.FromTypeErrorUnary\(", s):
-            fn(m.group(1), "input1 != nil", ["error1"], mod=PRV)
-    # kernels (contracted under C07) also carry the class num2
-    C08_TEXT = "\n".join(out)
-    return C08_TEXT
+
+import os, io, contextlib
+HERE = os.path.dirname(os.path.abspath(__file__))
+def run_section(fname):
+    """exec a section generator that print()s its text; returns the text"""
+    src = open(os.path.join(HERE, fname)).read()
+    buf = io.StringIO()
+    with contextlib.redirect_stdout(buf):
+        exec(compile(src, fname, "exec"), {"__name__": "__section__"})
+    return buf.getvalue()
+def section08(): return run_section("gen_bifs_c08.py")
 def section07():
-    # Generates the C07 section of /repo/pkg/bifs/verif_contracts.go (convenience only: the committed
-    # contract file is the source of truth read by mlrvc).
-    out = []
-    def w(s=""): out.append(s)
-    A, B = "old(iv(input1))", "old(iv(input2))"
-    FA, FB = "old(fv(input1))", "old(fv(input2))"
-    MIN = "-9223372036854775808"
-    
-    w("//@ properties C07 C08")
-    w()
-    def fn(name, req, ens, enc="bv", extra=()):
-        w(f"//@ func {name}")
-        w(f"//@ encoding {enc}")
-        if name.startswith(("min_i","max_i")): extra = tuple(extra) + ("class pick2 num2",)
-        elif not name.startswith(("uneg","bitwise_not","bitcount","BIF")): extra = tuple(extra) + ("class num2",)
-        w(f"//@ requires {req}")
-        w("//@ modifies nothing")
-        for e in ens: w(f"//@ ensures {e}")
-        for e in extra: w(f"//@ {e}")
-        w()
-    
-    # + - * with overflow to float
-    for name, fits, op in (("plus_n_ii","addFits","+"),("minus_n_ii","subFits","-"),("times_n_ii","mulFits","*")):
-        fn(name, "pII(input1, input2)", [
-            f"imp({fits}({A}, {B}), isI(result, {A} {op} {B}))",
-            f"imp(!{fits}({A}, {B}), mlrval.IsFloatVal(result))",
-            f"imp(mlrval.IsFloatVal(result), sameFloat(mlrval.VFloat(result), float64({A}) {op} float64({B})))",
-        ])
-    # mixed kernels: one IEEE operation on converted operands
-    ops = {"plus":"+","minus":"-","times":"*","divide":"/","dotplus":"+","dotminus":"-","dottimes":"*","dotdivide":"/"}
-    for base, op in ops.items():
-        fn(f"{base}_f_if", "pIF(input1, input2)", [f"isF(result, float64({A}) {op} {FB})"])
-        fn(f"{base}_f_fi", "pFI(input1, input2)", [f"isF(result, {FA} {op} float64({B}))"])
-        fn(f"{base}_f_ff", "pFF(input1, input2)", [f"isF(result, {FA} {op} {FB})"])
-    # divide
-    fn("divide_n_ii", "pII(input1, input2)", [
-        f"imp({B} != 0 && {A} % {B} == 0 && !({A} == {MIN} && {B} == -1), isI(result, {A} / {B}))",
-        f"imp({B} == 0 || {A} % {B} != 0, isF(result, float64({A}) / float64({B})))",
-        f"imp({A} == {MIN} && {B} == -1, mlrval.IsFloatVal(result))",
-    ])
-    fn("int_divide_n_ii", "pII(input1, input2)", [
-        f"imp({B} != 0 && !({A} == {MIN} && {B} == -1), isI(result, floorDiv({A}, {B})))",
-        f"imp({B} == 0, isF(result, float64({A}) / float64({B})))",
-        f"imp({A} == {MIN} && {B} == -1, mlrval.IsFloatVal(result))",
-    ])
-    for t in ("if","fi","ff"):
-        x = f"float64({A})" if t[0]=="i" else FA
-        y = f"float64({B})" if t[1]=="i" else FB
-        fn(f"int_divide_f_{t}", f"p{t.upper()}(input1, input2)", [f"isF(result, ffloor({x} / {y}))"])
-        fn(f"modulus_f_{t}", f"p{t.upper()}(input1, input2)", [f"isF(result, {x} - {y}*ffloor({x}/{y}))"])
-    fn("modulus_i_ii", "pII(input1, input2)", [
-        f"imp({B} != 0, mlrval.IsIntVal(result))",
-        f"imp({B} != 0, mlrval.VInt(result) == {A} - {B}*floorDiv({A}, {B}))",
-        f"imp({B} > 0, 0 <= mlrval.VInt(result) && mlrval.VInt(result) < {B})",
-        f"imp({B} < 0, {B} < mlrval.VInt(result) && mlrval.VInt(result) <= 0)",
-        f"imp({B} == 0, isF(result, float64({A}) / float64({B})))",
-    ])
-    # dot operators on ints: two's complement
-    fn("dotplus_i_ii", "pII(input1, input2)", [f"isI(result, {A} + {B})"])
-    fn("dotminus_i_ii", "pII(input1, input2)", [f"isI(result, {A} - {B})"])
-    fn("dottimes_i_ii", "pII(input1, input2)", [f"isI(result, {A} * {B})"])
-    fn("dotdivide_i_ii", "pII(input1, input2)", [f"imp({B} != 0, isI(result, {A} / {B}))", f"imp({B} == 0, result != nil && mlrval.VKind(result) == mlrval.MT_ERROR)"])
-    # bits
-    fn("bitwise_not_i_i", "mlrval.IsIntVal(input1)", [f"isI(result, ^{A})"])
-    fn("bitcount_i_i", "mlrval.IsIntVal(input1)", [f"isI(result, popcount({A}))"])
-    fn("bitwise_and_i_ii", "pII(input1, input2)", [f"isI(result, {A} & {B})"])
-    fn("bitwise_or_i_ii", "pII(input1, input2)", [f"isI(result, {A} | {B})"])
-    fn("bitwise_xor_i_ii", "pII(input1, input2)", [f"isI(result, {A} ^ {B})"])
-    inr = f"{B} >= 0 && {B} < 64"
-    fn("lsh_i_ii", "pII(input1, input2)", [f"isI(result, ite({inr}, {A} << uint64({B}), int64(0)))"])
-    fn("srsh_i_ii", "pII(input1, input2)", [f"isI(result, ite({inr}, {A} >> uint64({B}), ite({A} < 0, int64(-1), int64(0))))"])
-    fn("ursh_i_ii", "pII(input1, input2)", [f"isI(result, ite({inr}, int64(uint64({A}) >> uint64({B})), int64(0)))"])
-    # modular arithmetic helpers (pure int64 functions)
-    def pure(name, params, ens, req=None):
-        w(f"//@ func {name}"); w("//@ encoding bv")
-        if req: w(f"//@ requires {req}")
-        w("//@ modifies nothing")
-        for e in ens: w(f"//@ ensures {e}")
-        w()
-    pure("mlrmod", "a, m", req="m != 0", ens=["imp(m > 0, 0 <= result && result < m)", "imp(m > 0, result == a - m*floorDiv(a, m))"])
-    pure("imodadd", "a, b, m", req="m != 0", ens=["imp(m > 0, 0 <= result && result < m)", "imp(m > 0 && addFits(a, b), result == (a+b) - m*floorDiv(a+b, m))"])
-    pure("imodsub", "a, b, m", req="m != 0", ens=["imp(m > 0, 0 <= result && result < m)", "imp(m > 0 && subFits(a, b), result == (a-b) - m*floorDiv(a-b, m))"])
-    pure("imodmul", "a, b, m", req="m != 0", ens=["imp(m > 0, 0 <= result && result < m)", "imp(m > 0 && mulFits(a, b), result == (a*b) - m*floorDiv(a*b, m))"])
-    # min / max
-    fn("min_i_ii", "pII(input1, input2)", ["result == input1 || result == input2", f"isI(result, ite({A} < {B}, {A}, {B}))"])
-    fn("max_i_ii", "pII(input1, input2)", ["result == input1 || result == input2", f"isI(result, ite({A} > {B}, {A}, {B}))"])
-    for mm, M in (("min","Min"),("max","Max")):
-        fn(f"{mm}_f_ff", "pFF(input1, input2)", [f"isF(result, math.{M}({FA}, {FB}))"])
-        fn(f"{mm}_f_fi", "pFI(input1, input2)", [f"isF(result, math.{M}({FA}, float64({B})))"])
-        fn(f"{mm}_f_if", "pIF(input1, input2)", [f"isF(result, math.{M}(float64({A}), {FB}))"])
-    # unary minus
-    fn("uneg_i_i", "mlrval.IsIntVal(input1)", [f"isI(result, -{A})"])
-    fn("uneg_f_f", "mlrval.IsFloatVal(input1)", [f"isF(result, -{FA})"])
-    # pow / roundm: int-ness rule (math.Pow itself is uninterpreted)
-    fn("pow_f_ii", "pII(input1, input2)", [
-        "mlrval.IsIntVal(result) || mlrval.IsFloatVal(result)",
-        f"imp(mlrval.IsIntVal(result), float64(mlrval.VInt(result)) == math.Pow(float64({A}), float64({B})))",
-        f"imp(mlrval.IsFloatVal(result), sameFloat(mlrval.VFloat(result), math.Pow(float64({A}), float64({B}))))",
-    ])
-    fn("roundm_f_ii", "pII(input1, input2)", ["mlrval.IsIntVal(result)"])
-    fn("roundm_f_ff", "pFF(input1, input2)", [f"isF(result, fround({FA}/{FB})*{FB})"])
-    fn("roundm_f_if", "pIF(input1, input2)", [f"isF(result, fround(float64({A})/{FB})*{FB})"])
-    fn("roundm_f_fi", "pFI(input1, input2)", [f"isF(result, fround({FA}/float64({B}))*float64({B}))"])
-    # public modular-arithmetic functions: any three well-formed values => a value, no panic
-    for f in ("BIF_mod_add", "BIF_mod_sub", "BIF_mod_mul"):
-        w(f"//@ func {f}"); w("//@ encoding bv")
-        w("//@ requires mlrval.WF(input1) && mlrval.WF(input2) && mlrval.WF(input3)")
-        w("//@ ensures result != nil")
-        w("//@ ensures imp(old(iv(input3)) == 0 && mlrval.IsIntVal(input1) && mlrval.IsIntVal(input2) && mlrval.IsIntVal(input3), mlrval.VKind(result) == mlrval.MT_ERROR)")
-        w()
-    C07_TEXT = "\n".join(out)
-    return C07_TEXT
-exec(open(__file__.replace("gen_bifs.py","gen_bifs_tables.py")).read())
-exec(open(__file__.replace("gen_bifs.py","gen_bifs_time.py")).read())
-exec(open(__file__.replace("gen_bifs.py","gen_bifs_c14.py")).read())
+    # the shared spec helpers are in HEADER
+    return "\n".join(l for l in run_section("gen_bifs_c07.py").splitlines() if "//@ spec func" not in l)
+exec(open(os.path.join(HERE, "gen_bifs_tables.py")).read())
+exec(open(os.path.join(HERE, "gen_bifs_time.py")).read())
+exec(open(os.path.join(HERE, "gen_bifs_c14.py")).read())
 print(HEADER); print(section08()); print(); print(section07()); print(); print(section_tables()); print(); print(section_time()); print(); print(section_c14())
